@@ -388,7 +388,11 @@ func main() {
 	genCloneInit(o, pkgs["."])
 	genSessions(o, all)
 	genMisc(o, pkgs, all)
+<<<<<<< HEAD
 	genLockSections(o, pkgs["."], *repo)
+=======
+	genSharedWrites(o, all)
+>>>>>>> bC07
 
 	if *factsPath != "" {
 		b, _ := json.MarshalIndent(o.facts, "", " ")
@@ -957,6 +961,7 @@ func genMisc(o *out, pkgs map[string]map[string]*ast.File, all []funcInfo) {
 	o.write("Misc", b.String())
 }
 
+<<<<<<< HEAD
 
 // ---- C14: critical sections of prepare_stmt.go ------------------------------------------------
 // For every Mux.Lock()/RLock() .. Unlock()/RUnlock() section (tracked through branches; a deferred unlock extends the
@@ -1030,10 +1035,91 @@ func genLockSections(o *out, files map[string]*ast.File, repo string) {
 				if sel, ok := y.Fun.(*ast.SelectorExpr); ok && blockingCalls[sel.Sel.Name] {
 					held.calls = append(held.calls, sel.Sel.Name)
 				}
+=======
+// ---- C07: assignment sites of shared fields ---------------------------------------------------
+
+// lhsParts: for an assignment target like `a.b.c[k].d` returns base identifier "a", the selector path "b.c[].d",
+// the last selected field name "d" and whether the target is an element of that field (`x.f[k] = …`).
+func lhsParts(e ast.Expr) (base, path, field string, elem, ok bool) {
+	var segs []string
+	cur := e
+	first := true
+	for {
+		switch x := cur.(type) {
+		case *ast.SelectorExpr:
+			if field == "" {
+				field = x.Sel.Name
+			}
+			segs = append([]string{x.Sel.Name}, segs...)
+			cur = x.X
+			first = false
+		case *ast.IndexExpr:
+			if first {
+				elem = true
+			}
+			segs = append([]string{"[]"}, segs...)
+			cur = x.X
+		case *ast.StarExpr:
+			cur = x.X
+		case *ast.ParenExpr:
+			cur = x.X
+		case *ast.Ident:
+			if field == "" {
+				return "", "", "", false, false // plain local variable / element of a local
+			}
+			return x.Name, strings.Join(segs, "."), field, elem, true
+		default:
+			if field == "" {
+				return "", "", "", false, false
+			}
+			return "<expr>", strings.Join(segs, "."), field, elem, true
+		}
+	}
+}
+
+// genSharedWrites lists (a) every assignment whose target is a field named like one of the handle-wide shared fields
+// (processor.fns / processor.callbacks / Config.callbacks / Config.cacheStore / Config.Plugins), anywhere in the root and
+// callbacks packages, and (b) every field assignment inside the functions every operation on a shared handle runs through
+// (processor.Execute, DB.getInstance, Statement.clone).  Dumb by design: no type inference, names only.
+func genSharedWrites(o *out, all []funcInfo) {
+	sharedFields := map[string]bool{"fns": true, "cacheStore": true, "callbacks": true, "Plugins": true}
+	hotFuncs := map[string]bool{"processor.Execute": true, "DB.getInstance": true, "Statement.clone": true}
+	type site struct{ file, fn, base, path, field string; elem bool }
+	var fieldSites, funcSites []site
+	for _, fi := range all {
+		if strings.HasPrefix(fi.file, "schema/") || strings.HasPrefix(fi.file, "migrator/") || strings.HasPrefix(fi.file, "clause/") || strings.HasPrefix(fi.file, "utils/") {
+			continue
+		}
+		add := func(e ast.Expr) {
+			base, path, field, elem, ok := lhsParts(e)
+			if !ok {
+				return
+			}
+			st := site{fi.file, fi.name, base, path, field, elem}
+			if sharedFields[field] {
+				fieldSites = append(fieldSites, st)
+			}
+			if hotFuncs[fi.name] {
+				funcSites = append(funcSites, st)
+			}
+		}
+		ast.Inspect(fi.decl.Body, func(n ast.Node) bool {
+			switch x := n.(type) {
+			case *ast.AssignStmt:
+				if x.Tok == token.DEFINE {
+					return true
+				}
+				for _, l := range x.Lhs {
+					add(l)
+				}
+			case *ast.IncDecStmt:
+				add(x.X)
+>>>>>>> bC07
 			}
 			return true
 		})
 	}
+<<<<<<< HEAD
 	var walk func(fn string, stmts []ast.Stmt, held *lockSec) *lockSec
 	walk = func(fn string, stmts []ast.Stmt, held *lockSec) *lockSec {
 		for _, st := range stmts {
@@ -1109,4 +1195,25 @@ func genLockSections(o *out, files map[string]*ast.File, repo string) {
 	b.WriteString("\n]\n")
 	o.write("LockSections", b.String())
 	o.facts["lockSections"] = len(secs)
+=======
+	var b strings.Builder
+	b.WriteString("structure WriteSite where\n  file : String\n  fn : String\n  base : String\n  path : String\n  field : String\n  elem : Bool\nderiving Repr, DecidableEq\n\n")
+	emit := func(name, doc string, ss []site) {
+		b.WriteString("/-- " + doc + " -/\ndef " + name + " : List WriteSite := [\n")
+		for i, s := range ss {
+			sep := ","
+			if i == len(ss)-1 {
+				sep = ""
+			}
+			b.WriteString(fmt.Sprintf("  { file := %s, fn := %s, base := %s, path := %s, field := %s, elem := %s }%s\n",
+				lstr(s.file), lstr(s.fn), lstr(s.base), lstr(s.path), lstr(s.field), lbool(s.elem), sep))
+		}
+		b.WriteString("]\n\n")
+	}
+	emit("sharedFieldWrites", "every assignment (root + callbacks packages) whose target field is named fns / cacheStore / callbacks / Plugins", fieldSites)
+	emit("hotFuncWrites", "every field assignment inside processor.Execute, DB.getInstance, Statement.clone (base = leftmost identifier of the target)", funcSites)
+	o.write("SharedWrites", b.String())
+	o.facts["sharedFieldWrites"] = len(fieldSites)
+	o.facts["hotFuncWrites"] = len(funcSites)
+>>>>>>> bC07
 }
